@@ -30,6 +30,7 @@ Clauses ==
             [] cmd = "roundtrip" -> RoundTripClauses(B, A, Sel(E.sel))
             [] cmd = "cwdpair" -> CwdClauses([exit |-> E.refExit, after |-> St(E.refAfter), locs |-> SetOf(E.refLocs)],
                                              [exit |-> E.exit, after |-> A, locs |-> SetOf(E.locs)])
+            [] cmd = "combine" -> CombineClauses(E.exit, SetOf(E.links), SetOf(E.deps), E.conflict, E.entryUnchanged)
             [] cmd = "nested"  -> NestedClauses(B, A)
             [] cmd = "clean"   -> CleanClauses(B, A)
             [] cmd = "where"   -> WhereClauses(B, A)
